@@ -45,6 +45,7 @@ def _run_isolated(indices, procs, task_timeout):
     pending = list(indices)[::-1]
     running = {}          # fd -> [pid, index, start, buffer]
     results = []
+    attempts = {}
     while pending or running:
         while pending and len(running) < procs:
             i = pending.pop()
@@ -74,7 +75,14 @@ def _run_isolated(indices, procs, task_timeout):
             try:
                 results.append(pickle.loads(buf))
             except Exception:
-                results.append(_crashed(i, "worker process died (wait status %d%s) while running this case" % (status, ", signal %d" % (status & 0x7f) if status & 0x7f else "")))
+                # a child that could not even start its work (fork succeeded, but the interpreter could not get a thread / memory on a saturated machine) says nothing
+                # about the case: it is run again, up to three times, before the death is reported
+                attempts[i] = attempts.get(i, 0) + 1
+                if attempts[i] < 3:
+                    time.sleep(0.5 * attempts[i])
+                    pending.append(i)
+                    continue
+                results.append(_crashed(i, "worker process died %d times (last wait status %d%s) while running this case" % (attempts[i], status, ", signal %d" % (status & 0x7f) if status & 0x7f else "")))
         now = time.time()
         for fd, (pid, i, t0, buf) in list(running.items()):
             # the budget is CPU time of the child (a loaded machine must not produce checker errors); wall time only guards against a sleeping hang
